@@ -90,6 +90,12 @@ theorem enumerator_is_spec (atoms : List String) (h : Nat) (P : TProg) (hnd : at
       m < 2 ^ (atoms.length * (h + 1)) ∧ TSM h P (maskTrace atoms m) ∧ consistent h atoms (maskTrace atoms m) = true :=
   mem_tsmMasks atoms h P hnd hP m
 
+/-- … and it prints all of them: every consistent temporal stable model appears (as the mask of its trace) -/
+theorem enumerator_complete (atoms : List String) (h : Nat) (P : TProg) (hnd : atoms.Nodup)
+    (hP : ∀ r ∈ P, ruleOver atoms r = true) (T : Trace) (hT : TSM h P T) (hc : consistent h atoms T = true) :
+    traceMask atoms h T ∈ tsmMasks h atoms P ∧ TraceEq h (maskTrace atoms (traceMask atoms h T)) T :=
+  tsm_enumerated atoms h P hnd hP T hT hc
+
 /-! ### non-vacuity -/
 example : ruleOver ["a", "b"] ⟨.dynamic, .disj ["a", "b"], [.atom .not "a" (-1), .tel .notnot (.since (.atom "a") (.atom "b"))]⟩ = true := by decide
 
